@@ -26,6 +26,8 @@ func init() {
 	facet.RegisterKnown("c08EmptyCollectionNestedPlaceholder", func(facetName string, raw json.RawMessage, f *facet.Failure) bool {
 		return f != nil && (f.Kind == "dynamic-leak" || f.Kind == "admits/type" || f.Kind == "abstract-fails") && f.Data["cause"] == causeEmptyCollection
 	})
+	facet.RegisterKnown("c08FanInTypePrediction", causeIs("admits/type", causeFanInPrediction))
+	facet.RegisterKnown("c08NegativeZeroString", causeIs("admits/known-differs", causeNegZeroString))
 	facet.RegisterKnown("c08NullMemberMarksDropped", causeIs("idempotent-changed", causeNullMemberMarks))
 	facet.RegisterKnown("c08UnknownMapOptionalPlaceholder", func(facetName string, raw json.RawMessage, f *facet.Failure) bool {
 		return f != nil && (f.Kind == "admits/type" || f.Kind == "abstract-fails") && f.Data["cause"] == causeUnknownMapOptDyn
